@@ -244,8 +244,8 @@ theorem centScale_pos {rings : Poly} {kx ky : Rat} (h : centScale rings = some (
   · simp at h
 
 /-- **`Polygon.Centroid` with its range guard is its loop**, on every input (exact model). -/
-theorem C03_centroid_guard (p : Poly) : polygonCentroid p = polygonCentroidCore p := by
-  unfold polygonCentroid
+theorem C03_centroid_guard (p : Poly) : polygonCentroidScaled p = polygonCentroidCore p := by
+  unfold polygonCentroidScaled
   cases h : centScale p with
   | none => rfl
   | some k =>
@@ -253,8 +253,8 @@ theorem C03_centroid_guard (p : Poly) : polygonCentroid p = polygonCentroidCore 
     exact polygonCentroidCore_scale kx ky (centScale_pos h).1 (centScale_pos h).2 p
 
 /-- **`op.Centroid` with its range guard is its loop**, on every input (exact model). -/
-theorem C03_opCentroid_guard (p : Poly) : opCentroid p = opCentroidCore p := by
-  unfold opCentroid
+theorem C03_opCentroid_guard (p : Poly) : opCentroidScaled p = opCentroidCore p := by
+  unfold opCentroidScaled
   cases h : centScale p with
   | none => rfl
   | some k =>
@@ -275,12 +275,12 @@ theorem C03_centroid_valid_guarded (p : Poly) (ss : List Spell) (hlen : ss.lengt
     (b : Bool) (hb : ∀ s ∈ ss, s.rev = b)
     (hv : ValidPoly p = true) (halt : Alternating p = true)
     (hW : (p.map fun r => shoelace2 r / 2).sum ≠ 0) :
-    polygonCentroid (respell ss p) = .ok (.fin (Spec.centroid p).x, .fin (Spec.centroid p).y) := by
+    polygonCentroidScaled (respell ss p) = .ok (.fin (Spec.centroid p).x, .fin (Spec.centroid p).y) := by
   rw [C03_centroid_guard]; exact C03_centroid_valid p ss hlen b hb hv halt hW
 
 /-- `op.Centroid` = `Polygon.Centroid` on closed rings, for the guarded functions. -/
 theorem op_agrees_centroid_guarded (p : Poly) (hc : ∀ r ∈ p, closeIfOpen r = .ok r) :
-    polygonCentroid p = .ok (opCentroid p) := by
+    polygonCentroidScaled p = .ok (opCentroidScaled p) := by
   rw [C03_centroid_guard, C03_opCentroid_guard]; exact op_agrees_centroid p hc
 
 /-- **`MultiPolygon.Centroid` as it is now, coordinates inside `[2^-300, 2^300]`**: the guard does not
@@ -292,8 +292,8 @@ theorem C03_mcentroid_guarded (mp : MPoly) (sss : List (List Spell))
     (hv : ∀ p ∈ mp, ValidPoly p = true)
     (hW : ((mp.flatMap weights).map (·.1)).sum ≠ 0)
     (hr : centScale (List.zipWith respell sss mp).flatten = none) :
-    multiPolygonCentroid (List.zipWith respell sss mp) = (.fin (mcentroid mp).x, .fin (mcentroid mp).y) := by
-  unfold multiPolygonCentroid
+    multiPolygonCentroidScaled (List.zipWith respell sss mp) = (.fin (mcentroid mp).x, .fin (mcentroid mp).y) := by
+  unfold multiPolygonCentroidScaled
   rw [hr]
   exact C03_mcentroid mp sss hlen hclosed hv hW
 
